@@ -352,7 +352,15 @@ def explore_load(prop, tier, seed, oracle, tags, n_quick, emit=(), with_truth=Fa
                 # "in every loaded analysis": also after read-only reporting calls (profiles create genomes lazily and, for
                 # PhyloXML trees, re-read the tree file)
                 ex.res.count('observed_after_reporting_calls')
+                # genome objects handed out before the reporting calls stay THE genomes of their nodes (gene-less species and
+                # taxa without any family included: r12-C04b replaces "empty" genomes on their nodes)
+                held_g_ = [(g_, g_.taxon) for g_ in list(h.get_list_extant_genomes()) + list(h.get_list_ancestral_genomes())]
                 h.create_tree_profile()
+                held_g_ += [(g_, g_.taxon) for g_ in h.get_list_ancestral_genomes()]
+                h.create_tree_profile()
+                for g_, t_ in held_g_:
+                    if g_.taxon is not t_ or getattr(t_, 'genome', None) is not g_:
+                        o.problems.append('genome %s was bound to node %s before the tree profiles; afterwards that node carries another genome object' % (g_.name, t_.name))
                 subs_ = [x for t in h.get_list_top_level_hogs() for x in all_nodes(t) if isinstance(x, ag.HOG) and x.parent is not None]
                 if subs_:
                     h.create_tree_profile(hog=ex.rng.choice(subs_))
@@ -435,6 +443,30 @@ def explore_load(prop, tier, seed, oracle, tags, n_quick, emit=(), with_truth=Fa
                         ex.fail(cid + '-sf', D, ['load filtered by the cross-reference value %r holds the families %s, the families with a gene carrying it are %s' % (qv_, gotf_, sorted(map(str, wantf_)))])
                 except Exception as e:      # noqa
                     ex.fail(cid + '-sf', D, ['filtered load with a re-used ParserFilter raised %s: %s' % (type(e).__name__, e)])
+        if prop == 'C02' and k % 5 == 1 and D.families and all(t_ is not None for _, _, t_ in D.families):
+            # "every loaded analysis": also one loaded through a ParserFilter object (family ids) that served ANOTHER file before
+            # -- it holds the families a fresh filter selects, and they are well formed (r12-C02a: a filter that is not rebuilt,
+            # plus references to genes that were not kept being skipped)
+            prevD = getattr(ex, '_prevD', None)
+            tid_ = ex.rng.choice([t_ for _, _, t_ in D.families])
+            try:
+                fo_ = pyham.ParserFilter(); fo_.add_hogs_via_hogId([tid_])
+                if prevD is not None:
+                    try:
+                        core.load_py(prevD, filter_object=fo_)
+                    except Exception:      # noqa
+                        pass
+                hs_ = core.load_py(D, filter_object=fo_)
+                ff_ = pyham.ParserFilter(); ff_.add_hogs_via_hogId([tid_])
+                hf_ = core.load_py(D, filter_object=ff_)
+                os_ = ob.Obs(); ob.observe_load(hs_, os_); of_ = ob.Obs(); ob.observe_load(hf_, of_)
+                ex.res.count('filter_object_reused_on_another_file')
+                dd_ = core.diff_tags(os_.tags, of_.tags, ['forest', 'genes', 'genomes', 'members'])
+                b_ = list(os_.problems) + orc.wf_problems(hs_)
+                if dd_ or b_:
+                    ex.fail(cid + '-sf', D, ['analysis loaded through a ParserFilter (family %r) that served another file before: %s' % (tid_, (b_ or dd_)[:3])])
+            except Exception as e:      # noqa
+                ex.fail(cid + '-sf', D, ['filtered load with a re-used ParserFilter raised %s: %s' % (type(e).__name__, e)])
         ex._prevD = D
         if prop == 'C04' and D.naming == 'own' and k % 4 == 0:
             # species_resolve_mode="OMA": a leaf declared by its code AND by the name of a clade that resolves to it has ONE
@@ -803,7 +835,8 @@ def explore_profiles(prop, tier, seed, n_quick):
                 ex.res.count('family_profiles_before_the_whole_dataset_profile')
             bad = orc.c09(D, h, ex.tmp) if prop == 'C09' else orc.c10(D, h)
             tp = h.create_tree_profile()
-            o.put('tpfull', ob.profileS(tp.treemap))
+            tp_first_read = ob.profileS(tp.treemap)
+            o.put('tpfull', tp_first_read)
             if D.families:
                 # the same numbers against what the HISTORIES say about every branch (Lean: copiesInto / eventsInto, computed
                 # from the histories alone; theorem C09_profile_numbers_are_the_history)
@@ -849,6 +882,11 @@ def explore_profiles(prop, tier, seed, n_quick):
             # still the whole profile -- r10-C10a prunes the returned tree while exporting it)
             held = [(tid, top, h.create_tree_profile(hog=top, **(dict(outfile=ex.tmp + '/tph.html', as_html=True) if (k + j_) % 3 == 0 else {})))
                     for j_, (tid, top) in enumerate(h.get_dict_top_level_hogs().items())]
+            # the whole-dataset profile that was handed out before is an object of its own: building the per-family profiles
+            # (those of families rooted at the tree root in particular) leaves its numbers as they were (r12-C09b: one memoised
+            # copy of the species tree per root taxon, annotated by every profile rooted there)
+            if ob.profileS(tp.treemap) != tp_first_read:
+                bad.append('the whole-dataset profile returned earlier shows other numbers after the per-family profiles were built: %s -> %s' % (tp_first_read[:160], ob.profileS(tp.treemap)[:160]))
             for tid, top, tph in held:      # read only after all of them exist
                 o.put('tphog', ob.osS(tid) + '|' + ob.profileS(tph.treemap, pathof(top.genome.taxon)))
                 for tid0_, s0_ in early10:
